@@ -341,6 +341,14 @@ func (w *vkWorld) vkJudgeAttacker(q vkProbe, r h_resolver.Reply, log []authsim.Q
 	bad := func(class, f string, a ...any) vkVerdict {
 		return vkVerdict{Class: class, Viol: fmt.Sprintf(f, a...) + " | " + what + q.String() + ": " + vkMsgStr(m), Outcome: "VIOLATION:" + class}
 	}
+	if len(m.Question) == 1 && !strings.EqualFold(zonemodel.Canon(m.Question[0].Name), zonemodel.Canon(q.Name)) {
+		return bad("reply-for-another-question"+sfx, "the reply's question is %s, the client asked %s: an upstream reply to another (minimised) question was used as the answer", m.Question[0].Name, q.Name)
+	}
+	for _, rr := range m.Answer {
+		if len(m.Question) == 1 && rr.Header().Class != m.Question[0].Qclass {
+			return bad("foreign-class-in-answer"+sfx, "answer section carries a class %s record for the class %s question: %s", dns.ClassToString[rr.Header().Class], dns.ClassToString[m.Question[0].Qclass], strings.Join(strings.Fields(rr.String()), " "))
+		}
+	}
 	foreign := 0
 	sets := vkGroup(m.Answer)
 	for _, s := range sets {
@@ -733,6 +741,33 @@ func (w *vkWorld) vkRunOnce(s vkScenario) vkRunResult {
 		res.outcomes = append(res.outcomes, v.Outcome)
 		if v.Class != "" {
 			fail(fmt.Sprintf("attacker-zone query %s", st.Q), v)
+		}
+		// "a referral must be one coherent NS set, same class": a referral whose NS records disagree in owner or class
+		// (behaviours ref-mixed-* / ref-*-class*) must not be followed, even when nothing foreign is reached through it.
+		// Followed = the child's server is asked in this resolution after the rewritten referral went out, with no
+		// honest answer from the parent for the same question in between (a retry meets the honest referral).
+		if v.Class == "" {
+			mixed := false
+			for _, tm := range st.Tampers {
+				mixed = mixed || strings.HasPrefix(tm.B, "ref-mixed-") || strings.HasPrefix(tm.B, "ref-wrong-class")
+			}
+			if mixed && len(st.Tampers) == 1 { // alone: composed with an answer-carrying behaviour the answer is what counts
+				// the LAST thing the parent's server said in this resolution was the rewritten referral, and yet the
+				// resolution went on to an answer
+				// (the zone has ONE server and the rewritten referral names that very server's address as glue: a resolver
+				// that follows it asks the same server again, meets the honest referral and resolves; one that rejects it
+				// has nowhere else to go)
+				lastChanged := false
+				for _, lq := range log[n0:] {
+					if lq.Server == vkAttZone && lq.Scripted && lq.Changed {
+						lastChanged = true
+					}
+				}
+				if lastChanged && r.Msg != nil && r.Msg.Rcode != dns.RcodeServerFailure {
+					fail(fmt.Sprintf("attacker-zone query %s", st.Q), vkVerdict{Class: "incoherent-referral-followed", Outcome: "VIOLATION:incoherent-referral-followed",
+						Viol: fmt.Sprintf("a referral of %s (the zone's only server) mixed NS records of different owners / classes and the resolution went on to %s instead of failing | reply: %s", vkAttZone, dns.RcodeToString[r.Msg.Rcode], vkMsgStr(r.Msg))})
+				}
+			}
 		}
 	}
 	// The attacker's servers answer the look-alike name authoritatively with poison whenever they are asked
